@@ -133,13 +133,13 @@ Finalize ==
   /\ finalised' = IF RootCheck /\ ~AllGood THEN "err" ELSE "ok"
   /\ UNCHANGED <<Cfg, cache, applied, bmFinal>>
 
-Next == \/ \E t \in Trees, idx \in 0..2, k \in Kinds : idx <= NSeg(t) /\ AddSegment(t, idx, k)
+Next == \/ \E t \in Trees : \E idx \in 0..NSeg(t), k \in Kinds : AddSegment(t, idx, k)
         \/ ApplyNext
         \/ Finalize
 Spec == (\E c \in {Cfg} : InitWith(c)) /\ [][Next]_vars   \* the MC / trace modules supply the configuration
 
 -----------------------------------------------------------------------------
-TypeOK == /\ \A t \in Trees : \A e \in cache[t] : e.idx \in 0..3 /\ e.good \in BOOLEAN
+TypeOK == /\ \A t \in Trees : \A e \in cache[t] : e.idx \in 0..NSeg(t) /\ e.good \in BOOLEAN
           /\ \A t \in Trees : Count(t) <= NSeg(t)
           /\ finalised \in {"no", "ok", "err"}
 
